@@ -68,6 +68,17 @@ Proof.
   - cbn. lia.
 Qed.
 
+Ltac c6_dec_eqb :=
+  repeat match goal with
+  | |- context [?a =? ?b] =>
+      first [ replace (a =? b) with true by (symmetry; apply Z.eqb_eq; lia)
+            | replace (a =? b) with false by (symmetry; apply Z.eqb_neq; lia) ]
+  end.
+Lemma c6_negb_true : negb true = false. Proof. reflexivity. Qed.
+Lemma c6_negb_false : negb false = true. Proof. reflexivity. Qed.
+Lemma c6_b2z_false : Z.b2z false = 0. Proof. reflexivity. Qed.
+Ltac c6_simp_bool :=
+  rewrite ?c6_negb_true, ?c6_negb_false; rewrite ?andb_true_l, ?andb_true_r, ?andb_false_r, ?andb_false_l; rewrite ?c6_b2z_false.
 Section ColorSample.
 Variable size : Z.
 
@@ -137,7 +148,7 @@ Lemma c6_string_overlap q p sl :
 Proof.
   intros Tq Tp Bq Bp HS. destruct q as [r1 c1], p as [r c].
   unfold c6_string_sites, color_virtual_plaquette_index in HS. rewrite Tq in HS. cbn [negb] in HS.
-  rewrite (c6_bound_eq size m Hsize) in HS.
+  rewrite (c6_bound_eq size m Hsize) in HS. remember (3 * m + 1) as B1 eqn:HB1.
   rewrite c6_plaq_unfold in Tq, Tp. rewrite (c6_inb_unfold size m Hsize) in Bq, Bp. cbn [fst snd] in Tq, Tp, Bq, Bp.
   apply Z.eqb_eq in Tq, Tp.
   assert (Bq' : 0 <= c1 <= r1 /\ r1 <= 3 * m) by lia. assert (Bp' : 0 <= c <= r /\ r <= 3 * m) by lia. clear Bq Bp.
@@ -150,26 +161,318 @@ Proof.
     cbn [negb]; rewrite !andb_false_r; cbn [Z.b2z]; rewrite ?Z.mul_0_r, ?Z.add_0_r, ?Z.add_0_l;
     rewrite !rc_b2z_mul, !andb_assoc, !andb_diag;
     rewrite !(c6_inb_unfold size m Hsize), !c6_site_unfold; cbn [fst snd].
-  - (* red: along the row to column -1 *)
+  - (* r1 mod 3 = 0: along the row to column -1 *)
     assert (Hd : r = r1 \/ r = r1 - 1 \/ r = r1 + 1 \/ r < r1 - 1 \/ r1 + 1 < r) by lia.
     assert (Hd2 : c = c1 \/ c < c1 \/ c1 < c) by lia.
     destruct Hd as [-> | [-> | [-> | [Hd | Hd]]]]; destruct Hd2 as [-> | [Hd2 | Hd2]];
-      try (exfalso; clear Bp' Bq'; lia);
+      try (exfalso; clear Bp' Bq'; lia); c6_dec_eqb; c6_simp_bool;
       match goal with |- Z.odd ?z = ?b => assert (E : z mod 2 = Z.b2z b) by lia end;
       match goal with |- Z.odd ?z = ?b => destruct b; [apply rc_odd_of_mod2_1|apply rc_odd_of_mod2_0]; exact E end.
-  - (* down the column to row bound + 1 *)
+  - (* r1 mod 3 = 1: down the column to row bound + 1 *)
     assert (Hd : c = c1 \/ c = c1 - 1 \/ c = c1 + 1 \/ c < c1 - 1 \/ c1 + 1 < c) by lia.
     assert (Hd2 : r = r1 \/ r < r1 \/ r1 < r) by lia.
     destruct Hd as [-> | [-> | [-> | [Hd | Hd]]]]; destruct Hd2 as [-> | [Hd2 | Hd2]];
-      try (exfalso; clear Bp' Bq'; lia);
+      try (exfalso; clear Bp' Bq'; lia); c6_dec_eqb; c6_simp_bool;
       match goal with |- Z.odd ?z = ?b => assert (E : z mod 2 = Z.b2z b) by lia end;
       match goal with |- Z.odd ?z = ?b => destruct b; [apply rc_odd_of_mod2_1|apply rc_odd_of_mod2_0]; exact E end.
-  - (* along the row to column r1 + 1 *)
+  - (* r1 mod 3 = 2: along the row to column r1 + 1 *)
     assert (Hd : r = r1 \/ r = r1 - 1 \/ r = r1 + 1 \/ r < r1 - 1 \/ r1 + 1 < r) by lia.
     assert (Hd2 : c = c1 \/ c < c1 \/ c1 < c) by lia.
     destruct Hd as [-> | [-> | [-> | [Hd | Hd]]]]; destruct Hd2 as [-> | [Hd2 | Hd2]];
-      try (exfalso; clear Bp' Bq'; lia);
+      try (exfalso; clear Bp' Bq'; lia); c6_dec_eqb; c6_simp_bool;
       match goal with |- Z.odd ?z = ?b => assert (E : z mod 2 = Z.b2z b) by lia end;
       match goal with |- Z.odd ?z = ?b => destruct b; [apply rc_odd_of_mod2_1|apply rc_odd_of_mod2_0]; exact E end.
 Qed.
+
+(* ---- strings as sparse operators ---- *)
+Definition c6_string_list (q : ridx) : list ridx := match c6_string_sites q with Some sl => sl | None => [] end.
+Definition c6_string (op : pl) (q : ridx) : bsf := c6_sop size op (c6_string_list q).
+Definition c6_ind (x : ridx) : bsf := indv rc_idx_eqb CPI x.
+Notation K := (length CPI).
+
+Lemma c6_string_list_sites q : color_is_plaquette q = true -> c6_string_sites q = Some (c6_string_list q) /\ c6_all_sites (c6_string_list q).
+Proof. intros Hq. destruct (c6_string_sites_some q Hq) as (sl & E & Hs). unfold c6_string_list. rewrite E. auto. Qed.
+Lemma c6_sop_length op L : length (c6_sop size op L) = (CN + CN)%nat.
+Proof. apply rc_gop_length. Qed.
+Lemma c6_stabs_len : length CS = (K + K)%nat.
+Proof. rewrite c6_code_eq. cbn [stabs]. now rewrite app_length, !map_length. Qed.
+
+Theorem c6_string_syndrome_bit opA q opB p : In q CPI -> In p CPI ->
+  bsp (c6_string opA q) (c6_stab size opB p) =
+  xorb (zbit opA && xbit opB && rc_idx_eqb p q) (xbit opA && zbit opB && rc_idx_eqb p q).
+Proof.
+  intros Hq Hp. apply c6_in_plaquette_indices in Hq, Hp. destruct Hq as [Tq Bq], Hp as [Tp Bp].
+  destruct (c6_string_list_sites q Tq) as [E Hs].
+  unfold c6_string, c6_stab. rewrite c6_bsp_sop_sym. rewrite (c6_bsp_sop size m Hm Hsize) by (auto using c6_nbrs_sites).
+  cbv zeta. rewrite (c6_string_overlap q p _ Tq Tp Bq Bp E).
+  destruct (xbit opA), (zbit opA), (xbit opB), (zbit opB), (rc_idx_eqb p q); reflexivity.
+Qed.
+Lemma c6_syndrome_app A B e : syndrome_of (A ++ B) e = syndrome_of A e ++ syndrome_of B e.
+Proof. unfold syndrome_of. apply map_app. Qed.
+(* a Z-string flags exactly its own X-stabilizer; an X-string exactly its own Z-stabilizer *)
+Theorem c6_string_syndrome_Z q : In q CPI -> syndrome_of CS (c6_string pZ q) = c6_ind q ++ zeros K.
+Proof.
+  intros Hq. rewrite c6_code_eq. cbn [stabs]. rewrite c6_syndrome_app. unfold syndrome_of. rewrite !map_map. f_equal.
+  - unfold c6_ind, indv. apply map_ext_in. intros p Hp. rewrite c6_string_syndrome_bit by auto. cbn [xbit zbit andb].
+    now rewrite xorb_false_r.
+  - rewrite <- (map_false CPI). apply map_ext_in. intros p Hp. rewrite c6_string_syndrome_bit by auto. reflexivity.
+Qed.
+Theorem c6_string_syndrome_X q : In q CPI -> syndrome_of CS (c6_string pX q) = zeros K ++ c6_ind q.
+Proof.
+  intros Hq. rewrite c6_code_eq. cbn [stabs]. rewrite c6_syndrome_app. unfold syndrome_of. rewrite !map_map. f_equal.
+  - rewrite <- (map_false CPI). apply map_ext_in. intros p Hp. rewrite c6_string_syndrome_bit by auto. reflexivity.
+  - unfold c6_ind, indv. apply map_ext_in. intros p Hp. rewrite c6_string_syndrome_bit by auto. cbn [xbit zbit andb].
+    now rewrite xorb_false_l.
+Qed.
+
+(* ---- the loops compute XORs of strings ---- *)
+Lemma c6_sites_xor op L p : c6_all_sites L -> length (rc_xs p) = CN -> length (rc_zs p) = CN ->
+  exists p', c6_sites size op L p = Some p' /\ rc_to_bsf p' = xorv (rc_to_bsf p) (c6_sop size op L) /\
+    length (rc_xs p') = CN /\ length (rc_zs p') = CN.
+Proof.
+  intros HL Hx Hz. rewrite c6_sites_keys by auto. eexists. split; [reflexivity|].
+  destruct (rc_apply_flips_lengths op (c6_keys size L) p) as [E1 E2].
+  split; [apply rc_apply_flips_xor; auto; now apply (c6_keys_klt size m Hm Hsize)|lia].
+Qed.
+Lemma c6_sample_strings_xor op : forall L p, (forall q, In q L -> In q CPI) ->
+  length (rc_xs p) = CN -> length (rc_zs p) = CN ->
+  exists p', c6_sample_strings op L p = Some p' /\
+    rc_to_bsf p' = xorv (rc_to_bsf p) (xsum (CN + CN) (map (c6_string op) L)) /\
+    length (rc_xs p') = CN /\ length (rc_zs p') = CN.
+Proof.
+  induction L as [|q L IH]; intros p HL Hx Hz.
+  - exists p. split; [reflexivity|]. split; auto. change (xsum (CN + CN) (map (c6_string op) [])) with (zeros (CN + CN)).
+    replace (CN + CN)%nat with (length (rc_to_bsf p)) by (unfold rc_to_bsf; rewrite app_length; lia).
+    symmetry. apply xorv_zeros_r.
+  - pose proof (HL q (or_introl eq_refl)) as Hq. apply c6_in_plaquette_indices in Hq. destruct Hq as [Tq Bq].
+    destruct (c6_string_list_sites q Tq) as [E Hs]. cbn [c6_sample_strings]. rewrite E.
+    destruct (c6_sites_xor op (c6_string_list q) p Hs Hx Hz) as (p1 & E1 & B1 & Hx1 & Hz1). rewrite E1.
+    destruct (IH p1 (fun q' H' => HL q' (or_intror H')) Hx1 Hz1) as (p' & E' & B' & Hx' & Hz').
+    exists p'. split; [exact E'|]. split; auto. rewrite B', B1. cbn [map]. rewrite xsum_cons. fold (c6_string op q).
+    apply xorv_assoc.
+Qed.
+
+Lemma c6_product_NoDup : NoDup (c6_product size).
+Proof.
+  unfold c6_product. apply NoDup_flat_map; [apply rc_range_NoDup| |].
+  - intros r _. apply rc_NoDup_map_inj; [|apply rc_range_NoDup]. intros a b _ _ H. congruence.
+  - intros r r' b _ _ Hy Hy'. apply in_map_iff in Hy, Hy'. destruct Hy as (x & <- & _), Hy' as (x' & E & _). congruence.
+Qed.
+Lemma c6_PI_NoDup : NoDup CPI.
+Proof. unfold c6_plaquette_indices. apply NoDup_filter, c6_product_NoDup. Qed.
+
+Lemma c6_xsum_left k : forall (L : list bsf), Forall (fun r => length r = k) L ->
+  xsum (k + k) (map (fun r => r ++ zeros k) L) = xsum k L ++ zeros k.
+Proof.
+  induction 1 as [|r L Hr HL IH]; [symmetry; apply zeros_app|]. cbn [map]. rewrite !xsum_cons, IH.
+  rewrite xorv_app by (rewrite xsum_len; auto). now rewrite xorv_zz.
+Qed.
+Lemma c6_xsum_right k : forall (L : list bsf), Forall (fun r => length r = k) L ->
+  xsum (k + k) (map (fun r => zeros k ++ r) L) = zeros k ++ xsum k L.
+Proof.
+  induction 1 as [|r L Hr HL IH]; [symmetry; apply zeros_app|]. cbn [map]. rewrite !xsum_cons, IH.
+  rewrite xorv_app by (now rewrite !zeros_length). now rewrite xorv_zz.
+Qed.
+Lemma c6_halves_app (syn : bsf) : length syn = (K + K)%nat ->
+  length (fst (halves syn)) = K /\ length (snd (halves syn)) = K /\ fst (halves syn) ++ snd (halves syn) = syn.
+Proof.
+  intros HL. unfold halves. rewrite HL, half_double. cbn [fst snd]. rewrite firstn_length, skipn_length, firstn_skipn, HL. split; [lia|split; [lia|reflexivity]].
+Qed.
+Lemma c6_select_sum (s : bsf) L : length s = K -> Permutation L (rc_select s CPI) ->
+  xsum K (map c6_ind L) = s.
+Proof.
+  intros Hs P. unfold c6_ind. rewrite xsum_indv.
+  transitivity (map (fun q => xsumb (rc_idx_eqb q) (select s CPI)) CPI);
+    [|apply (select_indicator rc_idx_eqb rc_idx_eqb_spec CPI s c6_PI_NoDup Hs)].
+  apply map_ext_in. intros q Hq. apply xsumb_perm. now rewrite rc_select_select in P.
+Qed.
+
+(* the sample: every order of the two sets of flagged plaquettes *)
+Theorem color_sample_syndrome (syn : bsf) (LX LZ : list ridx) :
+  length syn = (K + K)%nat ->
+  Permutation LX (fst (c6_syndrome_to_plaquette_indices size syn)) ->
+  Permutation LZ (snd (c6_syndrome_to_plaquette_indices size syn)) ->
+  exists p, color_sample_recovery_ord LX LZ = Some p /\ length (rc_xs p) = CN /\ length (rc_zs p) = CN /\
+    rc_to_bsf p = xsum (CN + CN) (map (c6_string pZ) LX ++ map (c6_string pX) LZ) /\
+    syndrome_of CS (rc_to_bsf p) = syn.
+Proof.
+  intros HLs PX PZ. destruct (c6_halves_app syn HLs) as (Hsx & Hsz & Hsyn).
+  unfold c6_syndrome_to_plaquette_indices in PX, PZ. destruct (halves syn) as [sx sz]. cbn [fst snd] in *.
+  assert (HX : forall q, In q LX -> In q CPI).
+  { intros q Hq. apply (Permutation_in _ PX) in Hq. rewrite rc_select_select in Hq. eapply select_incl; eauto. }
+  assert (HZ : forall q, In q LZ -> In q CPI).
+  { intros q Hq. apply (Permutation_in _ PZ) in Hq. rewrite rc_select_select in Hq. eapply select_incl; eauto. }
+  assert (I0 : length (rc_xs (c6_identity size)) = CN /\ length (rc_zs (c6_identity size)) = CN)
+    by (unfold c6_identity, rc_identity; cbn [rc_xs rc_zs]; now rewrite zeros_length).
+  destruct I0 as [Ix Iz].
+  destruct (c6_sample_strings_xor pZ LX _ HX Ix Iz) as (p1 & E1 & B1 & Hx1 & Hz1).
+  destruct (c6_sample_strings_xor pX LZ _ HZ Hx1 Hz1) as (p2 & E2 & B2 & Hx2 & Hz2).
+  exists p2. unfold color_sample_recovery_ord. rewrite E1. split; [exact E2|]. split; [exact Hx2|]. split; [exact Hz2|].
+  assert (RX : rowlen (CN + CN) (map (c6_string pZ) LX)).
+  { unfold rowlen. apply Forall_map, Forall_forall. intros q _. apply c6_sop_length. }
+  assert (RZ : rowlen (CN + CN) (map (c6_string pX) LZ)).
+  { unfold rowlen. apply Forall_map, Forall_forall. intros q _. apply c6_sop_length. }
+  assert (Hb : rc_to_bsf p2 = xsum (CN + CN) (map (c6_string pZ) LX ++ map (c6_string pX) LZ)).
+  { rewrite B2, B1. unfold c6_identity, rc_identity, rc_to_bsf at 1. cbn [rc_xs rc_zs]. rewrite zeros_app.
+    rewrite xorv_zeros_l by (apply xsum_len; exact RX). symmetry. apply xsum_app; auto. }
+  split; [exact Hb|]. rewrite Hb.
+  rewrite product_syndrome by (unfold rowlen; apply Forall_app; split; auto).
+  rewrite map_app, !map_map, c6_stabs_len.
+  rewrite (map_ext_in _ (fun q => c6_ind q ++ zeros K) LX) by (intros q Hq; apply c6_string_syndrome_Z; auto).
+  rewrite (map_ext_in _ (fun q => zeros K ++ c6_ind q) LZ) by (intros q Hq; apply c6_string_syndrome_X; auto).
+  assert (RI : forall L, Forall (fun r => length r = K) (map c6_ind L)).
+  { intros L. apply Forall_map, Forall_forall. intros q _. unfold c6_ind. apply indv_len. }
+  rewrite xsum_app.
+  - rewrite <- (map_map c6_ind (fun r => r ++ zeros K)), <- (map_map c6_ind (fun r => zeros K ++ r)).
+    rewrite c6_xsum_left, c6_xsum_right by auto.
+    rewrite xorv_app by (rewrite xsum_len, zeros_length; auto).
+    rewrite (xorv_comm _ (zeros K)), !xorv_zeros_l by (apply xsum_len; auto).
+    rewrite (c6_select_sum sx LX Hsx PX), (c6_select_sum sz LZ Hsz PZ). exact Hsyn.
+  - apply Forall_map, Forall_forall. intros q _. rewrite app_length, zeros_length. unfold c6_ind. now rewrite indv_len.
+  - apply Forall_map, Forall_forall. intros q _. rewrite app_length, zeros_length. unfold c6_ind. now rewrite indv_len.
+Qed.
+
+(* ---- the logical operators (column c = 0) ---- *)
+Definition color_coset_op (c : coset) : bsf :=
+  match c with
+  | CI => zeros (CN + CN)
+  | CX => c6_lop size pX
+  | CY => xorv (c6_lop size pX) (c6_lop size pZ)
+  | CZ => c6_lop size pZ
+  end.
+Lemma c6_logical_xor op p : length (rc_xs p) = CN -> length (rc_zs p) = CN ->
+  exists p', c6_logical size op p = Some p' /\ rc_to_bsf p' = xorv (rc_to_bsf p) (c6_lop size op) /\
+    length (rc_xs p') = CN /\ length (rc_zs p') = CN.
+Proof. intros Hx Hz. unfold c6_logical, c6_lop. apply c6_sites_xor; auto. apply c6_col_sites. Qed.
+Lemma c6_lop_commutes op s : In s CS -> bsp (c6_lop size op) s = false.
+Proof.
+  rewrite c6_code_eq. cbn [stabs]. intros Hs. apply in_app_iff in Hs.
+  destruct Hs as [Hs|Hs]; apply in_map_iff in Hs; destruct Hs as (q & <- & Hq);
+    unfold c6_lop, c6_stab; rewrite c6_bsp_sop_sym; now apply (c6_stab_logical size m Hm Hsize).
+Qed.
+Lemma color_apply_coset_xor c p : length (rc_xs p) = CN -> length (rc_zs p) = CN ->
+  exists p', color_apply_coset c p = Some p' /\ rc_to_bsf p' = xorv (rc_to_bsf p) (color_coset_op c).
+Proof.
+  intros Hx Hz. destruct c; cbn [color_apply_coset color_coset_op].
+  - exists p. split; [reflexivity|].
+    replace (CN + CN)%nat with (length (rc_to_bsf p)) by (unfold rc_to_bsf; rewrite app_length; lia).
+    symmetry. apply xorv_zeros_r.
+  - destruct (c6_logical_xor pX p Hx Hz) as (p' & E & B & _). exists p'. auto.
+  - destruct (c6_logical_xor pX p Hx Hz) as (p1 & E1 & B1 & Hx1 & Hz1). rewrite E1.
+    destruct (c6_logical_xor pZ p1 Hx1 Hz1) as (p2 & E2 & B2 & _). exists p2. split; [exact E2|].
+    rewrite B2, B1. apply xorv_assoc.
+  - destruct (c6_logical_xor pZ p Hx Hz) as (p' & E & B & _). exists p'. auto.
+Qed.
+Lemma color_coset_op_length c : length (color_coset_op c) = (CN + CN)%nat.
+Proof.
+  destruct c; cbn [color_coset_op]; unfold c6_lop.
+  - apply zeros_length.
+  - apply c6_sop_length.
+  - rewrite xorv_length; rewrite !c6_sop_length; reflexivity.
+  - apply c6_sop_length.
+Qed.
+Lemma color_coset_op_commutes c s : In s CS -> bsp (color_coset_op c) s = false.
+Proof.
+  intros Hs. destruct c; cbn [color_coset_op].
+  - apply bsp_zeros_l; [|replace (CN + CN)%nat with (2 * CN)%nat by lia; apply Nat.even_spec; now exists CN].
+    rewrite c6_code_eq in Hs. cbn [stabs] in Hs. apply in_app_iff in Hs.
+    destruct Hs as [Hs|Hs]; apply in_map_iff in Hs; destruct Hs as (q & <- & _); apply c6_sop_length.
+  - now apply c6_lop_commutes.
+  - rewrite bsp_linear_l by (unfold c6_lop; now rewrite !c6_sop_length). now rewrite !c6_lop_commutes.
+  - now apply c6_lop_commutes.
+Qed.
+
+(* C02 for Color666MPSDecoder.decode: whichever coset the contraction prefers *)
+Theorem color_mps_decode_syndrome (c : coset) (syn : bsf) (LX LZ : list ridx) :
+  length syn = (K + K)%nat ->
+  Permutation LX (fst (c6_syndrome_to_plaquette_indices size syn)) ->
+  Permutation LZ (snd (c6_syndrome_to_plaquette_indices size syn)) ->
+  exists p p', color_sample_recovery_ord LX LZ = Some p /\ color_apply_coset c p = Some p' /\
+    rc_to_bsf p' = xorv (rc_to_bsf p) (color_coset_op c) /\ length (rc_to_bsf p') = (CN + CN)%nat /\
+    syndrome_of CS (rc_to_bsf p') = syn.
+Proof.
+  intros HLs PX PZ. destruct (color_sample_syndrome syn LX LZ HLs PX PZ) as (p & Hp & Hx & Hz & _ & Hsyn).
+  destruct (color_apply_coset_xor c p Hx Hz) as (p' & E & B). exists p, p'. split; [exact Hp|]. split; [exact E|].
+  split; [exact B|].
+  assert (Hlen : length (rc_to_bsf p) = (CN + CN)%nat) by (unfold rc_to_bsf; rewrite app_length; lia).
+  rewrite B. split.
+  - rewrite xorv_length; [exact Hlen|now rewrite color_coset_op_length].
+  - rewrite syndrome_shift; [exact Hsyn|now rewrite color_coset_op_length|apply color_coset_op_commutes].
+Qed.
 End ColorSample.
+
+(* ---- the all-sizes statements ---- *)
+Lemma color_size_half size : 3 <= size -> size mod 2 = 1 -> 1 <= size / 2 /\ size = 2 * (size / 2) + 1.
+Proof. lia. Qed.
+(* C02, Color666MPSDecoder.sample_recovery: every odd size >= 3, every syndrome-length bit vector, every iteration
+   order of the two sets *)
+Theorem color_sample_syndrome_all : forall size, 3 <= size -> size mod 2 = 1 ->
+  forall (syn : bsf) (LX LZ : list ridx),
+  length syn = length (stabs (color_code size)) ->
+  Permutation LX (fst (c6_syndrome_to_plaquette_indices size syn)) ->
+  Permutation LZ (snd (c6_syndrome_to_plaquette_indices size syn)) ->
+  exists p, color_sample_recovery_ord size LX LZ = Some p /\
+    length (rc_to_bsf p) = (c6_n size + c6_n size)%nat /\
+    syndrome_of (stabs (color_code size)) (rc_to_bsf p) = syn.
+Proof.
+  intros size Hs Ho syn LX LZ HL PX PZ. destruct (color_size_half size Hs Ho) as [Hm Hsize].
+  rewrite c6_stabs_len in HL.
+  destruct (color_sample_syndrome size (size / 2) Hm Hsize syn LX LZ HL PX PZ) as (p & Hp & Hx & Hz & _ & Hsyn).
+  exists p. split; [exact Hp|]. split; [unfold rc_to_bsf; rewrite app_length; lia|exact Hsyn].
+Qed.
+(* C02, Color666MPSDecoder.decode: recovery = sample xor L for L in {I, X, XZ, Z}-logical *)
+Theorem color_mps_decode_syndrome_all : forall size, 3 <= size -> size mod 2 = 1 ->
+  forall (c : coset) (syn : bsf) (LX LZ : list ridx),
+  length syn = length (stabs (color_code size)) ->
+  Permutation LX (fst (c6_syndrome_to_plaquette_indices size syn)) ->
+  Permutation LZ (snd (c6_syndrome_to_plaquette_indices size syn)) ->
+  exists p p', color_sample_recovery_ord size LX LZ = Some p /\ color_apply_coset size c p = Some p' /\
+    rc_to_bsf p' = xorv (rc_to_bsf p) (color_coset_op size c) /\
+    length (rc_to_bsf p') = (c6_n size + c6_n size)%nat /\
+    syndrome_of (stabs (color_code size)) (rc_to_bsf p') = syn.
+Proof.
+  intros size Hs Ho c syn LX LZ HL PX PZ. destruct (color_size_half size Hs Ho) as [Hm Hsize].
+  rewrite c6_stabs_len in HL.
+  exact (color_mps_decode_syndrome size (size / 2) Hm Hsize c syn LX LZ HL PX PZ).
+Qed.
+Corollary color_mps_recovery_syndrome_all : forall size, 3 <= size -> size mod 2 = 1 ->
+  forall (c : coset) (syn : bsf), length syn = length (stabs (color_code size)) ->
+  exists r, color_mps_recovery size c syn = Some r /\ length r = (c6_n size + c6_n size)%nat /\
+    syndrome_of (stabs (color_code size)) r = syn.
+Proof.
+  intros size Hs Ho c syn HL.
+  destruct (color_mps_decode_syndrome_all size Hs Ho c syn _ _ HL (Permutation_refl _) (Permutation_refl _))
+    as (p & p' & Hp & Hp' & _ & H2 & H3).
+  exists (rc_to_bsf p'). unfold color_mps_recovery, color_sample_recovery.
+  destruct (c6_syndrome_to_plaquette_indices size syn) as [lx lz]. cbn [fst snd] in Hp. rewrite Hp, Hp'. auto.
+Qed.
+Corollary color_mps_recovery_of_error_all : forall size, 3 <= size -> size mod 2 = 1 -> forall (c : coset) (e : bsf),
+  let S := stabs (color_code size) in
+  exists r, color_mps_recovery size c (syndrome_of S e) = Some r /\ syndrome_of S r = syndrome_of S e.
+Proof.
+  intros size Hs Ho c e S.
+  destruct (color_mps_recovery_syndrome_all size Hs Ho c (syndrome_of S e)) as (r & H1 & _ & H3);
+    [apply syndrome_length|]. exists r. auto.
+Qed.
+
+(* ---- non-vacuity ---- *)
+Example color_mps_recovery_ex :
+  let St := stabs (color_code 3) in
+  forallb (fun syn => forallb (fun co =>
+    match color_mps_recovery 3 co syn with Some r => beqv (syndrome_of St r) syn | None => false end) cosets)
+    (all_bits (length St)) = true.
+Proof. vm_compute. reflexivity. Qed.
+(* size 5: one plaquette of each colour (rows 3k, 3k+1, 3k+2) and the three directions of the strings *)
+Example color_string_ex :
+  c6_plaquette_indices 5 = [(1, 1); (2, 0); (3, 2); (4, 1); (4, 4); (5, 0); (5, 3); (6, 2); (6, 5)] /\
+  c6_string_sites 5 (3, 2) = Some [(3, 1); (3, 0)] /\
+  c6_string_sites 5 (4, 1) = Some [(5, 1); (6, 1)] /\
+  c6_string_sites 5 (2, 0) = Some [(2, 1); (2, 2)] /\
+  c6_string_sites 5 (6, 5) = Some [(6, 4); (6, 3); (6, 1); (6, 0)] /\
+  let St := stabs (color_code 5) in
+  let syn := bits_of_N 18 0x235a9%N in
+  match color_mps_recovery 5 CY syn with Some r => beqv (syndrome_of St r) syn | None => false end = true.
+Proof. vm_compute. repeat split; reflexivity. Qed.
+
+Print Assumptions color_sample_syndrome_all.
+Print Assumptions color_mps_decode_syndrome_all.
